@@ -85,7 +85,17 @@ static void check_factor_step(hist_t *h, const char *op, int_t info, int usepr, 
     if (info > n && h->lwork > 0) step_fail(h, op, "C08:workspace_exhausted_in_history", "info=%d > n: the caller's workspace of %ld bytes (sized from the library's own query for the largest thread count) ran out at this step", (int)info, h->lwork);
     if (info < 0 || info > n) step_fail(h, op, "oracle:info_out_of_range", "info=%d", (int)info);
     if (info != 0) { ld g, mp; if (h->u >= 1.0 && ref_nonsingular(vt, &F, &g, &mp)) step_fail(h, op, "oracle:info_nonzero", "info=%d for values the reference factors without trouble (min pivot/amax %.2Le)", (int)info, mp);
-        feat_add("singular_steps", 1); return; }
+        feat_add("singular_steps", 1);
+        /* C06 on a singular step: the returned objects are safe to inspect and consistent with info */
+        if (!is_perm(h->perm_c, n)) step_fail(h, op, "oracle:perm_c_not_bijection", "perm_c not a permutation after the singular return info=%d", (int)info);
+        if (!is_perm(h->perm_r, n)) step_fail(h, op, "oracle:perm_r_not_bijection", "perm_r not a permutation after the singular return info=%d", (int)info);
+        const char *bad0 = validate_LU(vt, n, &h->L, &h->U, 1, 1);
+        if (bad0) { char cls[64]; snprintf(cls, sizeof cls, "%s", bad0); char *c = strchr(cls, ':'); if (c) *c = 0; char sig[100]; snprintf(sig, sizeof sig, "oracle:LU_malformed:%s", cls); step_fail(h, op, sig, "after the singular return info=%d: %s", (int)info, bad0); }
+        dense_lu *D0 = extract_LU(vt, n, &h->L, &h->U);
+        int first0 = -1; for (int j = 0; j < n; ++j) { zq u = D0->U[(size_t)j * n + j]; if (u.re == 0 && u.im == 0) { first0 = j; break; } }
+        free_dense_lu(D0);
+        if (first0 + 1 != info) step_fail(h, op, "oracle:info_inconsistent_with_U", "info=%d but the first exactly-zero diagonal entry of the returned U is at position %d", (int)info, first0 + 1);
+        return; }
     if (!is_perm(h->perm_c, n)) step_fail(h, op, "oracle:perm_c_not_bijection", "perm_c not a permutation");
     if (!is_perm(h->perm_r, n)) step_fail(h, op, "oracle:perm_r_not_bijection", "perm_r not a permutation");
     const char *bad = validate_LU(vt, n, &h->L, &h->U, 1, 1);
@@ -380,7 +390,8 @@ static void run_history(hist_t *h, int rep)
 void prop_C08(void)
 {
     hist_t h; hist_init(&h);
-    g_exit_policy = EXITPOL_VIOLATION;
+    /* histories under deliberately tight storage estimates (C05's share): the library's diagnosed stop is an admissible outcome */
+    g_exit_policy = P_int("tight_fill", 0) ? EXITPOL_ALLOW_DIAG : EXITPOL_VIOLATION;
     run_history(&h, 0);
     op_destroy(&h);
     feat("nops", G->nops);
